@@ -89,6 +89,11 @@ impl Duration {
     pub fn as_millis(&self) -> (r: u128)
         ensures r == self.millis(),
     { unimplemented!() }
+    // whole seconds (std: u64; a Duration holds at most u64::MAX seconds)
+    #[verifier::external_body]
+    pub fn as_secs(&self) -> (r: u64)
+        ensures r as int == self.millis() as int / 1000,
+    { unimplemented!() }
 }
 
 // R8 named havoc: an arbitrary value of any type (used only where the sidecar lists it)
